@@ -355,3 +355,6 @@ class LoadMachine(HistoryMachine):
 
 def parts(tier):
     return [MachinePart('load-history', LoadMachine, engine.replay_machine_case(start, step), 2000, 24000, steps=10)]
+
+
+RULE += '  Added after the seeding rounds: type 0 and type 1 log passes interleaved in one logical file, log passes without data records, implied X in unit mnemonics outside the unit table, frame spacing in other units than the X axis (4 pairs with integral factors), read-only accessors called between loads, handles positioned anywhere.'
